@@ -87,7 +87,7 @@ def call_time_rule(repo: Repo, rep: Report, rid: str) -> None:
                 rep.check(inrt and a1 is not None and norm(a1).endswith(".cs.endian"), rid, f"{fi.key}:{short(n, 60)}",
                           "constructed per call with the current endianness", "BitBuffer must be constructed inside a parse/dump with <cls>.cs.endian",
                           fi.loc(n))
-    rep.floor(rid, "BitBuffer constructions", nb, 3)
+    rep.floor(rid, "BitBuffer constructions", nb, 2)  # reader and writer; the generated reader's own is found when its preamble is a harvestable template
 
     # caches: lru_cache'd functions must be closed over their parameters
     nc = 0
@@ -343,6 +343,26 @@ def run(repo: Repo, rep: Report, tier: str) -> None:
 
     default_substitution_rule(repo, rep, "C05.R9")
     text_array_fold_rule(repo, rep, "C05.R10")
+def folded_slots(repo: Repo, slot_names: tuple[str, ...]) -> dict[str, list]:
+    """Function key -> discrepancies, for the protocol slots of the scalar / character families that the codec folds interpret."""
+    from .. import codecfold as _cf
+
+    out: dict[str, list] = {}
+    cache = repo.__dict__.setdefault("_codec_folds", {})
+    for fam in ("Int", "Packed", "Wchar", "Char"):
+        if fam not in cache:
+            cache[fam] = _cf.fold_family(repo, fam) if fam in ("Int", "Packed") else _cf.fold_text_family(repo, fam)
+        fo = cache[fam]
+        if fo is None:
+            continue
+        for slot in slot_names:
+            k_ = fo["slots"].get(slot)
+            if k_:
+                out.setdefault(k_, [])
+                out[k_] += [b for b in fo["bad"] if b[0] == slot]
+    return out
+
+
 def codec_fold_rule(repo: Repo, rep: Report, rid: str, slots: tuple[str, ...] | None = None, only: str | None = None) -> None:
     """Shared by C01/C02/C05/C07/C08: the Int and Packed families folded through their resolved protocol slots (csa/codecfold.py)."""
     from .. import codecfold
